@@ -69,8 +69,12 @@ class Renderer:
     if k == "lsel":
       r = dict(e[1]); base = r["sig"]
       pre = "s" + ("." + r["inst"] if r["inst"] else "") + "." + base
-      sl = f"[{e[4][0]}:{e[4][1]}]" if len(e) > 4 and e[4] is not None else ""
-      return f"{pre}[{self.ex(e[3])}]{sl}"
+      idxs = e[3] if isinstance(e[2], list) else [e[3]]
+      out = pre + "".join(f"[{self.ex(ie)}]" for ie in idxs)
+      if len(e) > 5 and e[5]:
+        for f in e[5]: out += f"[{f}]" if isinstance(f, int) else f".{f}"
+      if len(e) > 4 and e[4] is not None: out += f"[{e[4][0]}:{e[4][1]}]"
+      return out
     if k == "tmp": return e[1]
     if k == "tmpsl": return f"{e[1]}[{e[2]}:{e[3]}]"
     if k == "bin": return f"({self.ex(e[2])} {e[1]} {self.ex(e[3])})"
@@ -132,8 +136,12 @@ class Renderer:
         base = n.split("[", 1)[0]
         if base in seen_lists: return
         seen_lists.add(base)
-        cnt = sum(1 for x in names_all if x.split("[", 1)[0] == base and "[" in x)
-        decl.append(f"    s.{base} = [ {ctor} for _ in range({cnt}) ]")
+        tuples = [tuple(int(x) for x in y.split("[", 1)[1].rstrip("]").split("][")) for y in names_all
+                  if "[" in y and y.split("[", 1)[0] == base]
+        dims = [max(t_[k] for t_ in tuples) + 1 for k in range(len(tuples[0]))]
+        e = ctor
+        for dm in reversed(dims): e = f"[ {e} for _ in range({dm}) ]"
+        decl.append(f"    s.{base} = {e}")
       else:
         decl.append(f"    s.{n} = {ctor}")
     names_all = [n for n, d, t in c["ports"]] + [n for n, t in c["wires"]]
